@@ -7,7 +7,10 @@ missing / present / destination an existing directory (copy *into* it); writable
 renamed or not; random trees (empty files/dirs, binary files, in-tree symlinks, exec bits, unicode)
 and hostile names (space, quotes, $, backtick, glob characters, leading dash) placed inside the tree,
 as the source/destination basename or as a parent directory; optionally a second hop that re-uses
-what the first transfer registered.
+what the first transfer registered.  Two further case classes: CONCURRENT groups of 2..4 overlapping
+transfers of one source (staggered starts, transfer 0's stream optionally held behind a gate in the
+harness connector) and RE-TRANSFERS of a regenerated source onto the copy left by an earlier version
+(optionally invalidated in the data manager first).
 
 Oracle (independent of StreamFlow): digest of the tree found on disk at the destination
 (relative names, bytes, directory structure incl. empty directories, exec bits, links followed) ==
@@ -54,11 +57,19 @@ def plan(tier):
         "min_nontrivial": 40 if q else 500,
         "required_counters": ["oracle_tree_compared", "oracle_registration_checked", "benign_exact",
                               "route_L>L", "route_L>A", "route_A>L", "route_A>B", "route_A>A", "route_W>L", "route_L>W",
-                              "route_W>W", "route_B>W"],
+                              "route_W>W", "route_B>W", "concurrent_groups", "concurrent_overlapping_starts",
+                              "concurrent_exact", "retransfer_judged", "retransfer_exact"],
         "rule": "case = (ordered location pair of 16, file|dir, writable, renamed, destination state of 3, tree, "
                 "name placement); the 16 routes cycle fastest, the 24 other combinations per route in a seeded order (384 cells); trees "
                 "have 0..12 entries (30 in thorough), files up to 70 kB (1 MiB in thorough); ~35% of cases carry a "
-                "hostile name. distinct = distinct case dict; trivial = empty directory tree.",
+                "hostile name. 40% of the case numbers are single transfers (above), 30% CONCURRENT groups (2..4 "
+                "transfers of one source started together / when transfer 0 has registered its destination / after "
+                "0..30 loop turns, transfer 0's tar stream optionally held behind the connector's gate until the "
+                "others returned or stalled; same and different destination locations, writable/read-only mixes; "
+                "every destination judged after all returned) and 30% RE-TRANSFERS (a file onto the file, or a tree "
+                "onto the same-named tree, left by a transfer of an earlier version: longer/shorter/empty/exec bit "
+                "flipped; stale copy optionally invalidated as recovery does; judged where the pinned code replaces "
+                "the destination, recorded only elsewhere). distinct = distinct case dict; trivial = empty directory tree.",
         "exhaustive": False,
         "assumptions": ["one shared disk behind all locations", "sources are registered in the data manager before the transfer (as the engine does)"],
     }
@@ -159,7 +170,7 @@ def gen_retransfer(sh: Shard, idx: int, rng) -> dict:
     src_name, tree = _source(rng, thorough, kind)
     if kind == "dir" and not any(e["k"] == "f" for e in tree):
         tree = tree + [{"p": "only.bin", "k": "f", "n": 700, "s": rng.randrange(1 << 30), "x": 0o755}]
-    rk = rng.choice(sorted(ROUTE_KINDS))
+    rk = rng.choice(["LL", "same-remote", "l2r", "l2r", "r2l", "r2l", "r2r", "r2r"])  # real copies weigh double
     s, d = rng.choice(ROUTE_KINDS[rk])
     tree2 = [(_new_version(rng, e) if (e["k"] == "f" and (kind == "file" or rng.random() < 0.7)) else dict(e)) for e in tree]
     return {"idx": idx, "cls": "retransfer", "src_loc": s, "dst_loc": d, "kind": kind, "src_name": src_name, "tree": tree,
